@@ -13,6 +13,7 @@ variable (P : Params)
 /-- the hypothesis of the `_partial` theorem: a negated comparison literal has exactly one guard -/
 def okLit : Sign × Atom → Bool
   | (.neg, .cmp _ gs) => gs.length == 1
+  | (_, .cmp _ gs) => gs.length != 0   -- clingo's `Comparison` always has a guard
   | _ => true
 
 def okLits (ls : List (Sign × Atom)) : Bool := ls.all okLit
@@ -24,14 +25,14 @@ def okBLit : BLit → Bool
 
 def okBody (b : List BLit) : Bool := b.all okBLit
 
-theorem litsSat_append (G : List String) (e : Env) (H T : Interp) :
+theorem litsSat_append (G : String → Prop) (e : Env) (H T : Interp) :
     ∀ (a b : List (Sign × Atom)), litsSat P G e H T (a ++ b) ↔ litsSat P G e H T a ∧ litsSat P G e H T b
   | [], b => by simp [litsSat]
   | x :: a, b => by
     simp only [List.cons_append, litsSat, litsSat_append G e H T a b, and_assoc]
 
 /-- the links of a chain, each as its own one-guard literal with sign `s ∈ {pos, dneg}`, say what the chain says -/
-theorem expand_pos (G : List String) (e : Env) (H T : Interp) (s : Sign) (hs : s = .pos ∨ s = .dneg) :
+theorem expand_pos (G : String → Prop) (e : Env) (H T : Interp) (s : Sign) (hs : s = .pos ∨ s = .dneg) :
     ∀ (t : Term) (gs : List Guard),
       litsSat P G e H T (expandCmp s t gs) ↔ chainHolds P e t gs
   | t, [] => by simp [expandCmp, cmpList, litsSat, chainHolds]
@@ -41,7 +42,7 @@ theorem expand_pos (G : List String) (e : Env) (H T : Interp) (s : Sign) (hs : s
     rw [ih]
     rcases hs with rfl | rfl <;> simp [litSat, atomSat, chainHolds]
 
-theorem expand_sat (G : List String) (e : Env) (H T : Interp) (s : Sign) (t : Term) (gs : List Guard)
+theorem expand_sat (G : String → Prop) (e : Env) (H T : Interp) (s : Sign) (t : Term) (gs : List Guard)
     (hok : okLit (s, .cmp t gs) = true) :
     litsSat P G e H T (expandCmp s t gs) ↔ litSat P G e H T (s, .cmp t gs) := by
   cases s with
@@ -52,7 +53,7 @@ theorem expand_sat (G : List String) (e : Env) (H T : Interp) (s : Sign) (t : Te
     match gs, hok with
     | [g], _ => simp [expandCmp, cmpList, litsSat, litSat, atomSat, chainHolds]
 
-theorem normCondition_sat (G : List String) (e : Env) (H T : Interp) :
+theorem normCondition_sat (G : String → Prop) (e : Env) (H T : Interp) :
     ∀ (c : List (Sign × Atom)), okLits c = true → (litsSat P G e H T (normCondition c) ↔ litsSat P G e H T c)
   | [], _ => by simp [normCondition]
   | (s, a) :: cs, hok => by
@@ -68,7 +69,7 @@ theorem normCondition_sat (G : List String) (e : Env) (H T : Interp) :
     | agg lg es rg => simp only [normCondition, litsSat, ih]
     | theory t => simp only [normCondition, litsSat, ih]
 
-theorem bTuples_norm (G : List String) (e : Env) (H T : Interp) :
+theorem bTuples_norm (G : String → Prop) (e : Env) (H T : Interp) :
     ∀ (es : List (List Term × List (Sign × Atom))), (es.all fun x => okLits x.2) = true →
       ∀ tup, bTuples P G e H T (es.map fun (ts, cond) => (ts, normCondition cond)) tup ↔ bTuples P G e H T es tup
   | [], _, tup => by simp [bTuples]
@@ -84,11 +85,11 @@ theorem bTuples_norm (G : List String) (e : Env) (H T : Interp) :
       · exact Or.inl ⟨e', ha, ht, (normCondition_sat P G e' H T c hok.1).mpr hc⟩
       · exact Or.inr h
 
-theorem bodySat_cons (G : List String) (e : Env) (H T : Interp) (b : BLit) (bs : List BLit) :
+theorem bodySat_cons (G : String → Prop) (e : Env) (H T : Interp) (b : BLit) (bs : List BLit) :
     bodySat P G e H T (b :: bs) ↔ blitSat P G e H T b ∧ bodySat P G e H T bs := by
   simp [bodySat]
 
-theorem bodySat_lits_append (G : List String) (e : Env) (H T : Interp) (ls : List (Sign × Atom)) (bs : List BLit) :
+theorem bodySat_lits_append (G : String → Prop) (e : Env) (H T : Interp) (ls : List (Sign × Atom)) (bs : List BLit) :
     bodySat P G e H T (ls.map BLit.lit ++ bs) ↔ litsSat P G e H T ls ∧ bodySat P G e H T bs := by
   induction ls with
   | nil => simp [litsSat, bodySat]
@@ -96,7 +97,7 @@ theorem bodySat_lits_append (G : List String) (e : Env) (H T : Interp) (ls : Lis
     simp only [List.map_cons, List.cons_append, bodySat_cons, ih, litsSat, blitSat, and_assoc]
 
 /-- **`normalize_operators` keeps the denotation of a body.** -/
-theorem normalizeOperators_sat (G : List String) (e : Env) (H T : Interp) :
+theorem normalizeOperators_sat (G : String → Prop) (e : Env) (H T : Interp) :
     ∀ (b : List BLit), okBody b = true → (bodySat P G e H T (normalizeOperators b) ↔ bodySat P G e H T b)
   | [], _ => by simp [normalizeOperators]
   | .clit (l, c) :: bs, hok => by
